@@ -105,7 +105,7 @@ def contracts():
                    'forall(range(0, len(%s)), lambda j: context.keys[j] == '
                    'str(j + 1) and context.vals[j] == %s[j])' % (S, S)],
           loops=[None, dict(
-              anchor='for i, t in enumerate(', index='n',
+              anchor='for i, t in enumerate(itertools.chain(lst, sequence), 1)', index='n',
               invariant=['len(context.keys) == n', 'len(context.vals) == n',
                          'forall(range(0, n), lambda j: context.keys[j] == '
                          'str(j + 1) and context.vals[j] == %s[j])' % (
